@@ -23,63 +23,11 @@ def to_unit(value_kg, unit, comp):
     return perm if unit == KG else perm.convert(to_units=unit, component=comp)
 
 
-def judge(case):
-    mix = U.get_mixture(case["mixture"])
-    t, x, P, unit = case["T"], case["x"], case["P"], case["unit"]
-    mode = tuple(case["mode"]) if case["mode"] != "vac" else "vac"
-    kw = U.permeate_kwargs(mode, t)
-    comp = U.composition(x, case.get("basis", "weight"), mix)
-    comps = (mix.first_component, mix.second_component)
+def curve_class_roundtrip(mix, t, comp, P, unit, comps):
+    """permeances -> fluxes -> permeances through DiffusionCurve itself (vacuum), in the stated unit; unit normalisation."""
     v = []
-    mem = U.make_membrane(mix, P[0], P[1], t_ref=t, ea1=25000.0, ea2=60000.0, units=unit)
-    pv = solver.ObservedPV(membrane=mem, mixture=mix).observe(budget=300000)
-    try:
-        st, curve = core.call(pv.ideal_diffusion_curve, feed_temperature=t, compositions=[comp], precision=1e-12, **kw)
-    except (solver.Lasso, solver.Budget):
-        return core.result("not-judged:no-convergence", nontrivial=False)
-    if st != "ok":
-        return core.result("not-judged:raised", nontrivial=False)
-    J = (float(curve.partial_fluxes[0][0]), float(curve.partial_fluxes[0][1]))
-    rec = curve.permeances[0]
-    if rec[0].units != KG or rec[1].units != KG:
-        v.append(core.viol("C09/units", "curve exposes permeances in %r" % (rec[0].units,)))
-    R = (float(rec[0].value), float(rec[1].value))
     pf = U.pyvaporation.get_partial_pressures(t, mix, comp)
     pf = (float(pf[0]), float(pf[1]))
-    ystar = float(pv._last_y.p)
-    yJ = J[0] / (J[0] + J[1])
-    # conditioning: the inversion divides by the driving force
-    if mode == "vac":
-        pp = (0.0, 0.0)
-    elif mode[0] == "T":
-        q = U.pyvaporation.get_partial_pressures(kw["permeate_temperature"], mix, U.Composition(p=yJ, type="weight"))
-        pp = (float(q[0]), float(q[1]))
-    else:
-        pp = (mode[1] * ystar, mode[1] * (1 - ystar))
-    drive = [abs(pf[i] - pp[i]) / max(abs(pf[i]), abs(pp[i]), 1e-300) for i in (0, 1)]
-    if min(drive) < 1e-2 or not all(j > 0 and math.isfinite(j) for j in J):
-        return core.result("not-judged:ill-conditioned", nontrivial=False)
-    ok = all(core.close(R[i], P[i], TOL) for i in (0, 1))
-    outcome = "inverted"
-    if not ok:
-        known = None
-        if mode != "vac" and mode[0] == "p" and mode[1] > 0:
-            # K2 signature, both sides on this very case
-            m1, m2 = comps[0].molecular_weight, comps[1].molecular_weight
-            side_solver = all(abs(J[i] - P[i] * (pf[i] - mode[1] * w)) <= 1e-9 * P[i] * (abs(pf[i]) + mode[1])
-                              for i, w in ((0, ystar), (1, 1 - ystar)))
-            nJ = U.exact_to_molar(yJ, m1, m2)
-            def curve_value(i, n):  # what mole-fraction inversion yields; Permeance clamps negatives to 0
-                den = pf[i] - mode[1] * n
-                val = J[i] / den if den != 0 else math.inf
-                return val if val >= 0 else 0.0
-            side_curve = all(core.close(R[i], curve_value(i, n), 1e-9) for i, n in ((0, nJ), (1, 1 - nJ)))
-            if side_solver and side_curve:
-                known = K2
-                outcome = "K2"
-        v.append(core.viol("C09/inversion/" + (mode if mode == "vac" else mode[0]),
-                           "supplied permeances %r, curve reports %r back (mode %r)" % (tuple(P), R, mode), known=known,
-                           fluxes=J, y_star=ystar))
     # permeances -> fluxes -> permeances through the curve class itself (vacuum), in every unit
     pin = (to_unit(P[0], unit, comps[0]), to_unit(P[1], unit, comps[1]))
     st, c1 = core.call(U.DiffusionCurve, mixture=mix, membrane_name="M", feed_temperature=t, feed_compositions=[comp], permeances=[pin])
@@ -106,6 +54,68 @@ def judge(case):
                            partial_fluxes=[(float(f[0]), float(f[1]))])
         if st == "ok" and (c3.permeances[0][0].units != KG or not core.close(float(c3.permeances[0][0].value), P[0], 1e-11)):
             v.append(core.viol("C09/unit_normalisation", "curve built from fluxes and %s permeances exposes %r %s" % (unit, c3.permeances[0][0].value, c3.permeances[0][0].units)))
+    return v
+
+
+def judge(case):
+    mix = U.get_mixture(case["mixture"])
+    t, x, P, unit = case["T"], case["x"], case["P"], case["unit"]
+    mode = tuple(case["mode"]) if case["mode"] != "vac" else "vac"
+    kw = U.permeate_kwargs(mode, t)
+    comp = U.composition(x, case.get("basis", "weight"), mix)
+    comps = (mix.first_component, mix.second_component)
+    v = curve_class_roundtrip(mix, t, comp, P, unit, comps) if mode == "vac" or case.get("always_roundtrip") else []
+    if mode != "vac":
+        pass  # the class-level round trip does not depend on the permeate mode: judged once per (mixture, T, x, P, unit)
+    mem = U.make_membrane(mix, P[0], P[1], t_ref=t, ea1=25000.0, ea2=60000.0, units=unit)
+    pv = solver.ObservedPV(membrane=mem, mixture=mix).observe(budget=300000)
+    try:
+        st, curve = core.call(pv.ideal_diffusion_curve, feed_temperature=t, compositions=[comp], precision=1e-12, **kw)
+    except (solver.Lasso, solver.Budget):
+        return core.result("not-judged:no-convergence", nontrivial=bool(v), viol=v)
+    if st != "ok":
+        return core.result("not-judged:raised", nontrivial=bool(v), viol=v)
+    J = (float(curve.partial_fluxes[0][0]), float(curve.partial_fluxes[0][1]))
+    rec = curve.permeances[0]
+    if rec[0].units != KG or rec[1].units != KG:
+        v.append(core.viol("C09/units", "curve exposes permeances in %r" % (rec[0].units,)))
+    R = (float(rec[0].value), float(rec[1].value))
+    pf = U.pyvaporation.get_partial_pressures(t, mix, comp)
+    pf = (float(pf[0]), float(pf[1]))
+    ystar = float(pv._last_y.p)
+    yJ = J[0] / (J[0] + J[1])
+    # conditioning: the inversion divides by the driving force
+    if mode == "vac":
+        pp = (0.0, 0.0)
+    elif mode[0] == "T":
+        q = U.pyvaporation.get_partial_pressures(kw["permeate_temperature"], mix, U.Composition(p=yJ, type="weight"))
+        pp = (float(q[0]), float(q[1]))
+    else:
+        pp = (mode[1] * ystar, mode[1] * (1 - ystar))
+    drive = [abs(pf[i] - pp[i]) / max(abs(pf[i]), abs(pp[i]), 1e-300) for i in (0, 1)]
+    if min(drive) < 1e-2 or not all(j > 0 and math.isfinite(j) for j in J):
+        return core.result("not-judged:ill-conditioned", nontrivial=bool(v), viol=v)
+    ok = all(core.close(R[i], P[i], TOL) for i in (0, 1))
+    outcome = "inverted"
+    if not ok:
+        known = None
+        if mode != "vac" and mode[0] == "p" and mode[1] > 0:
+            # K2 signature, both sides on this very case
+            m1, m2 = comps[0].molecular_weight, comps[1].molecular_weight
+            side_solver = all(abs(J[i] - P[i] * (pf[i] - mode[1] * w)) <= 1e-9 * P[i] * (abs(pf[i]) + mode[1])
+                              for i, w in ((0, ystar), (1, 1 - ystar)))
+            nJ = U.exact_to_molar(yJ, m1, m2)
+            def curve_value(i, n):  # what mole-fraction inversion yields; Permeance clamps negatives to 0
+                den = pf[i] - mode[1] * n
+                val = J[i] / den if den != 0 else math.inf
+                return val if val >= 0 else 0.0
+            side_curve = all(core.close(R[i], curve_value(i, n), 1e-9) for i, n in ((0, nJ), (1, 1 - nJ)))
+            if side_solver and side_curve:
+                known = K2
+                outcome = "K2"
+        v.append(core.viol("C09/inversion/" + (mode if mode == "vac" else mode[0]),
+                           "supplied permeances %r, curve reports %r back (mode %r)" % (tuple(P), R, mode), known=known,
+                           fluxes=J, y_star=ystar))
     return core.result(outcome, digest=core.digest_of([core.fhex(R[0]), core.fhex(R[1])]), viol=v,
                        max_rel_inversion_error=max(core.relerr(R[i], P[i]) for i in (0, 1)) if ok else None,
                        sample={"P": P, "recovered": R, "J": J})
